@@ -25,10 +25,10 @@ CHECKS["C12"] = dict(cat=MC, engine="E1 xsched, environment-only form (segmentat
    text="69 valid messages of every stream codec (HTTP request/response heads, SOCKS4/4a/5 negotiation+request, replies, 1-3 RPFM frames) with 0/1/5 bytes of trailing payload are decoded by the real decoders under every enumerated segmentation; parsed message and unread remainder must equal the single-segment run; EOF after every proper prefix must not yield a message.",
    note="Trusts: the in-memory stream (one segment per poll_read). Not covered: all subsets of cuts for messages longer than 14 (thorough 18) bytes.",
    ref="DESIGN.md §3 C12")
-CHECKS["C05"] = dict(cat=MC, engine="E2 xseq (bounded-exhaustive input enumeration on the real decoders under catch_unwind)",
+CHECKS["C05"] = dict(cat=MC, engine="E2 xseq (bounded-exhaustive input enumeration on the real decoders under catch_unwind) + E4 real binary (process-level liveness)",
    technique="bounded-exhaustive enumeration of byte strings, header grids, datagram sequences and upstream replies on the real decoders; oracle: returns within a poll budget, never panics",
-   text="Every (id,total,seq) fragment header, all 2-(thorough 3-)datagram sequences over a 98-header alphabet, a structured RPFM header/attribute grid through the stream reader / from_buffer / fragment layer with every truncation, the SOCKS-UDP header grid, all byte strings up to length 5 (thorough 6) over 12-symbol alphabets for the HTTP and SOCKS decoders, every single-byte substitution/deletion of every valid message, 25 request heads through the real h11c_handshake and 22 upstream replies x feature x channel through the real h11c_connect.",
-   note="A caught panic stands for a process abort (panic='abort'). Trusts the harness profile (overflow checks on). Not covered here: process-level liveness (accept loop after EMFILE, stalls), TPROXY, memory exhaustion.",
+   text="Every (id,total,seq) fragment header, all 2-(thorough 3-)datagram sequences over a 98-header alphabet, a structured RPFM header/attribute grid through the stream reader / from_buffer / fragment layer with every truncation, the SOCKS-UDP header grid, all byte strings up to length 5 (thorough 6) over 12-symbol alphabets for the HTTP and SOCKS decoders, every single-byte substitution/deletion of every valid message, 25 request heads through the real h11c_handshake and 22 upstream replies x feature x channel through the real h11c_connect. Real binary (panic=abort): malformed heads / negotiations / frames / upstream replies on every listener, disconnects (FIN and RST) at every byte offset of the http, socks5 and socks4 handshakes, stalled clients, junk datagrams on the UDP/QUIC ports, and RLIMIT_NOFILE=64 with 240 idle connections; after each batch the process must be alive and every listener and the API must still serve.",
+   note="A caught panic stands for a process abort (panic='abort'). Trusts the harness profile (overflow checks on). Not covered: TPROXY, memory exhaustion through unbounded read_line/read_until, QUIC transport-parameter abuse.",
    ref="DESIGN.md §3 C05")
 CHECKS["C03"] = dict(cat=MC, engine="E2 xseq (bounded-exhaustive destination grid through the real codecs)",
    technique="exhaustive destination grid (host length x hostile byte x position, IPs, ports) through every real inbound decoder and outbound encoder; outputs parsed by an independent strict reference decoder and by the repo's own decoder",
@@ -135,7 +135,7 @@ def main():
         "engines": [
             {"name": "E1 xsched", "path": "harness/src/verif/xsched.rs", "serves_properties": ["C01", "C04", "C06", "C14", "C15", "C16"], "kind_free_text": "stateless deviation-bounded DFS over task schedules and scripted environment answers of real async code"},
             {"name": "E3 loom", "path": "harness/src/verif/c17.rs", "serves_properties": ["C17"], "kind_free_text": "loom exhaustive interleavings of the real load balancer (feature loomlb => cfg(redproxy_verif_loom))"},
-            {"name": "E4 xnet", "path": "e4/", "serves_properties": ["C04", "C06", "C07", "C10", "C13", "C15", "C18", "C19"], "kind_free_text": "real-socket script/fault enumeration against the real binary (Python drivers, kernel scheduling uncontrolled)"},
+            {"name": "E4 xnet", "path": "e4/", "serves_properties": ["C04", "C05", "C06", "C07", "C10", "C13", "C15", "C18", "C19"], "kind_free_text": "real-socket script/fault enumeration against the real binary (Python drivers, kernel scheduling uncontrolled)"},
             {"name": "E2 xseq", "path": "harness/src/verif/", "serves_properties": [p for p in CHECKS], "kind_free_text": "bounded-exhaustive operation-sequence / input-shape enumeration on the real code vs reference model"},
         ],
         "checks": checks,
